@@ -1,12 +1,16 @@
 """C03 — Each executed defer runs exactly once, in LIFO order, on every exit path (DESIGN.md C03).
 
+The model in force is PINNED to Model/DeferFixed.v (the compiler since /repo c8af5e1); the model of
+the pre-fix compiler (Model/Defer.v) is only evaluated to label a regression of the fixed findings.
+
 End-to-end stream: generated functions (nested blocks / loops / ifs, defers, break / continue /
 return / .try with and without labels) are compiled by the real `capy` executable in batches and
 run under several condition oracles; the printed characters are compared with
-  * the extracted model of the compiler (Model/Defer.v: label lowering + defer-stack code
+  * the extracted model of the compiler (Model/Defer.v lowering + Model/DeferFixed.v defer-stack code
     generation + execution of the generated structured code)            = correspondence,
   * the extracted specification (Spec/DeferSpec.v: big-step semantics)   = direct oracle.
-A failing input is classified by the extracted syntactic classifier `known_classes` (K1..K3)."""
+Every disagreement with the specification is a violation; the extracted syntactic classifier
+`known_classes` (K1..K3, history) only names the shape of a regression of the fixed findings."""
 import json
 import os
 import subprocess
@@ -20,7 +24,8 @@ CLASSES = ["break-to-loop-with-outer-pending-defers",     # K1
            "jump-to-block-with-later-defers"]             # K3
 
 # --------------------------------------------------------------------------- programs
-# AST (python tuples):  ("P",c) ("D",c) ("B",l) ("C",l) ("R",) ("T",) ("K",l,body) ("L",l,w,body) ("I",a,b)
+# AST (python tuples):  ("P",c) ("D",c) ("E",items) ("B",l) ("C",l) ("R",) ("T",) ("K",l,body) ("L",l,w,body) ("I",a,b)
+# ("E", items): defer of a jump-free block; items: ("P",c) | ("D",c) | ("E",items)
 
 
 def toks(body):
@@ -29,10 +34,14 @@ def toks(body):
         k = s[0]
         if k in "PD":
             out += [k, str(s[1])]
+        elif k == "E":
+            out += ["E", "("] + toks(s[1]) + [")"]
         elif k in "BC":
             out += [k, "-" if s[1] is None else str(s[1])]
-        elif k in "RT":
+        elif k == "R":
             out.append(k)
+        elif k == "T":
+            out += ["T", s[1]]
         elif k == "K":
             out += ["K", "-" if s[1] is None else str(s[1]), "("] + toks(s[2]) + [")"]
         elif k == "L":
@@ -42,43 +51,49 @@ def toks(body):
     return out
 
 
-def render(body, ind, scopes, style):
-    """capy text of a statement list; scopes: enclosing break targets for `break;` (loops / named blocks)."""
+def render(body, ind, scopes, style, fv=None):
+    """capy text of a statement list; scopes: enclosing break targets for `break;` (loops / named blocks);
+    fv: the flavour of the enclosing function (result type, return statement, .try operands)."""
     pad = "    " * ind
     out = []
+    fv = fv or FLAVOURS[DEFAULT_FLAVOUR]
     for idx, s in enumerate(body):
         k = s[0]
         if k == "P":
             out.append("%sputchar('%s');" % (pad, chr(s[1])))
         elif k == "D":
             out.append("%sdefer putchar('%s');" % (pad, chr(s[1])))
+        elif k == "E":
+            out.append("%sdefer {" % pad)
+            out += render(s[1], ind + 1, scopes, style, fv)
+            out.append("%s};" % pad)
         elif k == "B":
             if s[1] is None:
-                out.append("%sbreak%s;" % (pad, "" if scopes else " nil"))
+                out.append("%sbreak%s;" % (pad, "" if scopes else " " + fv["val"]))
             else:
                 out.append("%sbreak `b%d;" % (pad, s[1]))
         elif k == "C":
             out.append("%scontinue%s;" % (pad, "" if s[1] is None else " `b%d" % s[1]))
         elif k == "R":
-            out.append("%sreturn nil;" % pad)
+            out.append("%sreturn %s;" % (pad, fv["val"]))
         elif k == "T":
-            out.append("%sopt(nxt(st)).try;" % pad)
+            out.append("%s%s(nxt(st)).try;" % (pad, fv["ops"][s[2] % len(fv["ops"])][0]))
         elif k == "K":
             lab = "" if s[1] is None else "`b%d: " % s[1]
             out.append("%s%s{" % (pad, lab))
-            out += render(s[2], ind + 1, scopes + (["b"] if s[1] is not None else []), style)
+            out += render(s[2], ind + 1, scopes + (["b"] if s[1] is not None else []), style, fv)
             out.append("%s}" % pad)
         elif k == "L":
             lab = "" if s[1] is None else "`b%d: " % s[1]
             out.append("%s%s%s {" % (pad, lab, "while nxt(st)" if s[2] else "loop"))
-            out += render(s[3], ind + 1, scopes + ["l"], style)
+            out += render(s[3], ind + 1, scopes + ["l"], style, fv)
             out.append("%s}" % pad)
         elif k == "I":
             out.append("%sif nxt(st) {" % pad)
-            out += render(s[1], ind + 1, scopes, style)
+            out += render(s[1], ind + 1, scopes, style, fv)
             if s[2] or (style + idx) % 2 == 0:
                 out.append("%s} else {" % pad)
-                out += render(s[2], ind + 1, scopes, style)
+                out += render(s[2], ind + 1, scopes, style, fv)
             out.append("%s}" % pad)
     return out
 
@@ -89,20 +104,99 @@ nxt :: (st: ^mut u64) -> bool {
     st^ = st^ >> 1;
     b == 1
 }
-opt :: (fail: bool) -> ?u8 {
-    if fail { return nil; }
-    1
-}
+Err :: struct { code: u8 };
+o_u8 :: (fail: bool) -> ?u8 { if fail { return nil; } 1 }
+o_void :: (fail: bool) -> ?void { if fail { return nil; } }
+e_u8 :: (fail: bool) -> Err!u8 { if fail { return Err.{ code = 1 }; } 1 }
+e_void :: (fail: bool) -> Err!void { if fail { return Err.{ code = 2 }; } }
+s_u8 :: (fail: bool) -> str!u8 { if fail { return "bad"; } 1 }
 """
+
+# Function flavours: the result type of the function and the operands of `.try` select the branch of
+# the error path of Expr::Propagate (functions.rs): "z" referenced_block_ty.is_zero_sized(),
+# "o" optional operand into a sized optional block, "e" error-union operand (into an error union
+# with / without payload, or into the plain error type).  The branch labels were established by
+# mutating each branch separately in a scratch worktree (see the C03 report); they only label the
+# coverage histogram and the model's `try_kind`, the predicted output does not depend on them.
+FLAVOURS = {
+    # ret: result type; val: value of `return` / of a `break` that leaves the function; tail: tail expression
+    "opt_u8_nil_tail": {"ret": "?u8", "val": "nil", "tail": "nil", "ops": [("o_u8", "o"), ("o_void", "o")]},
+    "opt_u8": {"ret": "?u8", "val": "nil", "tail": "7", "ops": [("o_u8", "o"), ("o_void", "o")]},
+    "opt_void": {"ret": "?void", "val": "nil", "tail": None, "ops": [("o_void", "o"), ("o_u8", "o")]},
+    "nil": {"ret": "nil", "val": "nil", "tail": "nil", "ops": [("o_void", "z"), ("o_u8", "z")]},
+    "opt_void_always_nil": {"ret": "?void", "val": "nil", "tail": "nil", "ops": [("o_void", "o"), ("o_u8", "o")]},
+    "err_u16": {"ret": "Err!u16", "val": "Err.{ code = 9 }", "tail": "7", "ops": [("e_u8", "e"), ("e_void", "e")]},
+    "err_void": {"ret": "Err!void", "val": "Err.{ code = 9 }", "tail": None, "ops": [("e_void", "e"), ("e_u8", "e")]},
+    "err_plain": {"ret": "Err", "val": "Err.{ code = 9 }", "tail": "Err.{ code = 3 }", "ops": [("e_u8", "e"), ("e_void", "e")]},
+    "str_u8": {"ret": "str!u8", "val": '"r"', "tail": "3", "ops": [("s_u8", "e")]},
+}
+DEFAULT_FLAVOUR = "opt_u8_nil_tail"
+FLAVOUR_NAMES = list(FLAVOURS)
+
+
+class Body(list):
+    """statement list of one function + the flavour of that function"""
+    flav = DEFAULT_FLAVOUR
+
+
+def with_flavour(body, flav):
+    """attach a flavour; `.try` statements without an operand get the flavour's operands in turn"""
+    n = [0]
+
+    def fix(b):
+        out = []
+        for s in b:
+            k = s[0]
+            if k == "T":
+                if len(s) < 3:
+                    i = n[0]
+                    n[0] += 1
+                else:
+                    i = s[2]
+                ops = FLAVOURS[flav]["ops"]
+                out.append(("T", ops[i % len(ops)][1], i))
+            elif k == "K":
+                out.append(("K", s[1], fix(s[2])))
+            elif k == "L":
+                out.append(("L", s[1], s[2], fix(s[3])))
+            elif k == "I":
+                out.append(("I", fix(s[1]), fix(s[2])))
+            else:
+                out.append(s)
+        return out
+    r = Body(fix(body))
+    r.flav = flav
+    return r
+
+
+def try_marked(body):
+    """the same function with every `.try` replaced by `if c { putchar('!'); return }` -- identical under
+    the specification except for the marker, which tells whether (and where) a .try failed at run time"""
+    out = []
+    for s in body:
+        k = s[0]
+        if k == "T":
+            out.append(("I", [("P", 33), ("R",)], []))
+        elif k == "K":
+            out.append(("K", s[1], try_marked(s[2])))
+        elif k == "L":
+            out.append(("L", s[1], s[2], try_marked(s[3])))
+        elif k == "I":
+            out.append(("I", try_marked(s[1]), try_marked(s[2])))
+        else:
+            out.append(s)
+    return out
 
 
 def program_text(funcs, oracles):
     """funcs: list of bodies; oracles: list (per function) of bit strings (LSB first)."""
     lines = [PRELUDE]
     for i, body in enumerate(funcs):
-        lines.append("f%d :: (st: ^mut u64) -> ?u8 {" % i)
-        lines += render(body, 1, [], i)
-        lines.append("    nil")
+        fv = FLAVOURS[getattr(body, "flav", DEFAULT_FLAVOUR)]
+        lines.append("f%d :: (st: ^mut u64) -> %s {" % (i, fv["ret"]))
+        lines += render(body, 1, [], i, fv)
+        if fv["tail"] is not None:
+            lines.append("    " + fv["tail"])
         lines.append("}")
     lines.append("main :: () {")
     lines.append("    s : u64 = 0;")
@@ -147,7 +241,7 @@ class Gen:
         for _ in range(n):
             x = r.below(100)
             if x < 24 and ndef < 3:
-                body.append(("D", self.char()))
+                body.append(self.defer_expr(0) if r.chance(1, 4) else ("D", self.char()))
                 ndef += 1
             elif x < 38:
                 body.append(("P", self.char()))
@@ -165,17 +259,20 @@ class Gen:
                 if not w and r.chance(4, 5):
                     b = b + [("B", None)]
                 body.append(("L", lab, w, b))
-            elif x < 86:
+            elif x < 85:
                 body.append(("B", self.label_ref(env, False)))
-            elif x < 91:
+            elif x < 89:
                 if in_loop or self.bad:
                     body.append(("C", self.label_ref(env, True)))
                 else:
                     body.append(("P", self.char()))
-            elif x < 95:
+            elif x < 92:
                 body.append(("R",))
             else:
                 body.append(("T",))
+            if x >= 92 and r.chance(1, 2) and depth < 4:
+                # a second flavour of the same: .try under a condition
+                body[-1] = ("I", [("T",)], [])
         # jumps are more interesting under a condition
         out = []
         for s in body:
@@ -185,9 +282,24 @@ class Gen:
                 out.append(s)
         return out
 
+    def defer_expr(self, d):
+        """defer of a jump-free block of prints and nested defers (codegen test defers_within_defers)"""
+        r = self.rng
+        items = []
+        for _ in range(r.range(0, 3)):
+            x = r.below(10)
+            if x < 5:
+                items.append(("P", self.char()))
+            elif x < 8 or d >= 2:
+                items.append(("D", self.char()))
+            else:
+                items.append(self.defer_expr(d + 1))
+        return ("E", items)
+
     def func(self):
         self.ch = self.rng.below(20)
-        return self.block(0, [], False)
+        flav = self.rng.choice(FLAVOUR_NAMES)
+        return with_flavour(self.block(0, [], False), flav)
 
 
 def systematic():
@@ -242,7 +354,7 @@ def features(body, acc=None, depth=0):
     acc["depth"] = max(acc["depth"], depth)
     for s in body:
         acc["kinds"].add(s[0])
-        if s[0] == "D":
+        if s[0] in "DE":
             acc["defers"] += 1
         if s[0] in "BCRT":
             acc["jumps"] += 1
@@ -319,8 +431,18 @@ def run(tier, seed):
         org = fl.rng.fork("oracles")
         cases = []            # (body, [oracle bits])
         for body, ors in corpus():
-            cases.append(([to_tuple(s) for s in body], list(ors)))
-        sysf = systematic()
+            b = [to_tuple(s) for s in body]
+            has_try = " T " in " " + " ".join(toks(with_flavour(b, DEFAULT_FLAVOUR))) + " "
+            for flav in (FLAVOUR_NAMES if has_try else [DEFAULT_FLAVOUR]):
+                cases.append((with_flavour(b, flav), list(ors)))
+        sysf = []
+        for i, body in enumerate(systematic()):
+            if any(t == "T" for t in toks(with_flavour(body, DEFAULT_FLAVOUR))):
+                # every .try lowering branch on every nesting path
+                for flav in FLAVOUR_NAMES:
+                    sysf.append(with_flavour(body, flav))
+            else:
+                sysf.append(with_flavour(body, FLAVOUR_NAMES[i % len(FLAVOUR_NAMES)]))
         sys_or = ["1" * 14, "-", "10" * 7, "01" * 7, "110" * 4, "1011" * 3]
         for body in sysf:
             cases.append((body, list(sys_or)))
@@ -335,6 +457,28 @@ def run(tier, seed):
             for bits in ors:
                 qlines.append("%d %s %s" % (FUEL, bits, t))
         mres = C.run_lines([drv], qlines, indexed=False)
+        # measured coverage of the .try error path: the same functions with a marker at every .try
+        tq, tmeta = [], []
+        for body, ors in cases:
+            tk = toks(body)
+            if "T" in tk:
+                t = " ".join(toks(try_marked(body)))
+                kinds = sorted({tk[i + 1] for i, x in enumerate(tk) if x == "T"})
+                for bits in ors:
+                    tq.append("%d %s %s" % (FUEL, bits, t))
+                    tmeta.append((body.flav, "".join(kinds)))
+        tres = C.run_lines([drv], tq, indexed=False) if tq else []
+        trycov = {}
+        for (flav, kinds), line in zip(tmeta, tres):
+            sp = parse_model(line).get("spec", "")
+            ent = trycov.setdefault(flav, {"try_kinds": kinds, "cases": 0, "try_failed_at_run_time": 0,
+                                           "try_failed_with_pending_defers": 0})
+            ent["cases"] += 1
+            if "!" in sp:
+                ent["try_failed_at_run_time"] += 1
+                if len(sp.strip('"').split("!", 1)[1]) > 0:
+                    ent["try_failed_with_pending_defers"] += 1
+        v.coverage["try_error_path_coverage_by_function_flavour"] = trycov
         if len(mres) != len(qlines) or any(m.startswith("ERROR") or m.startswith("!") for m in mres):
             bad = next((q, m) for q, m in zip(qlines, mres + ["!"]) if m.startswith("ERROR") or m.startswith("!"))
             fl.broken.append({"what": "model driver failed", "input": bad[0], "output": bad[1]})
@@ -351,7 +495,7 @@ def run(tier, seed):
                     if m["err"] == "1":
                         rejected += 1
                         continue
-                    if "FUEL" in (m["spec"], m["model"]):
+                    if "FUEL" in (m["spec"], m["fixed"]):
                         skipped_fuel += 1
                         continue
                     keep.append((bits, m))
@@ -421,36 +565,33 @@ def run(tier, seed):
                         payload = {"key": "e2e:%s:%s" % (C.sha(" ".join(toks(body))), bits), "stream": "end-to-end",
                                    "program_tokens": " ".join(toks(body)), "oracle_bits_lsb_first": bits,
                                    "source": src1, "implementation": got, "spec": spec, "model": mod,
-                                   "fixed_model": fxd, "class_flags_K1K2K3": m["cls"], "exit_status": res["rc"]}
+                                   "fixed_model": fxd, "class_flags_K1K2K3": m["cls"], "exit_status": res["rc"],
+                                   "function_flavour": getattr(body, "flav", DEFAULT_FLAVOUR)}
                         if got is None:
                             got = "<no output: process died rc=%s>" % res["rc"]
                             payload["implementation"] = got
-                        if got != mod:
-                            d_faith += 1
-                            first_faith = first_faith or payload
+                        payload["pre_fix_model"] = payload.pop("model")
+                        payload["model"] = fxd
                         if got != fxd:
                             d_fixed += 1
                             first_fixed = first_fixed or payload
                         if got != spec:
                             hist["outcomes"]["spec_mismatch"] += 1
+                            hf = hist.setdefault("spec_mismatch_by_function_flavour", {})
+                            hf[payload["function_flavour"]] = hf.get(payload["function_flavour"], 0) + 1
                             flags = [CLASSES[i] for i in range(3) if m["cls"][i] == "1"]
                             hist["classes"][m["cls"]] = hist["classes"].get(m["cls"], 0) + 1
-                            if got != mod or not flags:
-                                # not the behaviour the model of the unchanged compiler predicts,
-                                # or not in any known class: a new violation
-                                v.failing("defer-trace-wrong:unexplained", payload)
+                            # every disagreement with the specification is a violation; the (historical)
+                            # classifier only names the shape, so that a regression of c8af5e1 is recognisable
+                            if got == mod and flags:
+                                v.failing("regression-of-fixed-finding:" + "+".join(flags), payload)
                             else:
-                                for c in flags:
-                                    v.failing(c, payload)
+                                v.failing("defer-trace-wrong:unexplained", payload)
                         else:
                             hist["outcomes"]["ok"] += 1
-            # which model does the tree follow?
-            if d_faith == 0 or d_faith <= d_fixed:
-                fl.stream("end-to-end defers: capy vs Model/Defer.v (unchanged compiler)", ncase, d_faith, first_faith)
-                v.coverage["model_in_force"] = "Model/Defer.v (faithful, C03_except_known applies)"
-            else:
-                fl.stream("end-to-end defers: capy vs Model/DeferFixed.v (fix applied)", ncase, d_fixed, first_fixed)
-                v.coverage["model_in_force"] = "Model/DeferFixed.v (fix detected, C03_fixed_full applies)"
+            # the model in force is pinned: Model/DeferFixed.v (the compiler since /repo c8af5e1)
+            fl.stream("end-to-end defers: capy vs Model/DeferFixed.v", ncase, d_fixed, first_fixed)
+            v.coverage["model_in_force"] = "Model/DeferFixed.v (pinned; C03_full_holds applies)"
             v.coverage["evaluations"] += ncase
             v.coverage["distinct_nontrivial"] += len(nontriv)
             v.coverage["functions"] = len(funcs)
@@ -497,7 +638,9 @@ def run(tier, seed):
                               "vs extracted spec; non-trivial = function has >=1 defer and >=1 jump. label stream: functions "
                               "with undefined / non-loop labels, capy accepts iff model lowering reports no error" % nor)
     v.assumptions = [
-        "deferred expressions are atomic (print one character); defers containing blocks/defers are not modelled",
+        "a deferred expression is atomic (prints one character) or a jump-free block of prints and nested defers; the latter is "
+        "represented in model AND spec by the character sequence Model/Defer.v `flat` assigns to it (shared abstraction, tied to "
+        "capy only by this stream); deferred blocks containing control flow are not modelled",
         "ScopeIds are modelled by label nesting level (uid generator trusted to yield unique ids)",
         "statements after an expression statement of type AlwaysJumps are modelled as compiled (dead code) although the "
         "Rust code stops compiling the block there; both give the same behaviour",
